@@ -3,6 +3,8 @@ import PhysisModel.Proofs.MdlHeaders
 import PhysisModel.Proofs.MdlWriteBytes
 import PhysisModel.Model.MdlWrite
 import PhysisModel.Spec.MdlEdit
+import PhysisModel.Proofs.MdlEditParse
+import PhysisModel.Proofs.MdlDriverTie
 /-!
 # C07 — written models re-read as the same model, including after edits
 -/
@@ -145,11 +147,12 @@ of the runtime block, then re-parsing the written buffer returns the same `file_
 same `model_data` (the writer emits exactly the format's runtime block — each bone-map size only
 for its version — and the geometry writes never touch it).
 
-Full statement kept visible (not proved for edited models; tied by correspondence only —
-`edit` / `wbytes` cases):
+The whole-file statement for edited models
 
   theorem c07_edit_then_parse (a) (es) (a') (h : applyEdits a es = some a') (WF, Canonical for a, a') :
-      parse (write (edits (parse (encodeMdl a)))) reports `view a'` and `HeaderFlags.allOk`. -/
+      parse (write (edits (parse (encodeMdl a)))) reports `view a'` and `HeaderFlags.allOk`
+
+is proved below as `c07_edit_then_parse_partial` (see there for the exact side conditions). -/
 theorem c07_write_parse_headers_partial (m : MDL) (hv : isV5 m.fileHeader.version = true)
     (hok : modelDataOk m.fileHeader m.modelData = true) (hw : writesAfterHeader m = true)
     (buf : Bytes) (hb : writeToBuffer m = .ok buf) :
@@ -187,5 +190,141 @@ def parsedSample : Option MDL :=
 example : (parsedSample.map fun m => isV5 m.fileHeader.version &&
     modelDataOk m.fileHeader m.modelData && writesAfterHeader m) = some true := by
   decide +kernel
+
+/-! ## parse ∘ write ∘ edits ∘ parse (edited models) -/
+
+/-- **After any non-empty history of `replace_vertices` / `remove_shape_meshes` /
+`add_shape_mesh` calls supplied consistently, the written file re-parses as exactly the new
+geometry, and its header is self-consistent.**
+
+`a` is the model in the file the session starts from (`WF`, `Canonical`); `es` the abstract edit
+history, `a' = applyEdits a es` its meaning (`Spec/MdlEdit.lean`); `ces = cedits a es` the concrete
+API calls — the vertices passed to `replace_vertices` / `add_shape_mesh` are the specification's
+decoding (`verticesOf`) of the new canonical stream bytes under the mesh's declaration, exactly as
+the check's driver builds them (`Proofs/MdlRep.lean`).  Side conditions, all decidable:
+`editsOk2` (`Proofs/MdlHistory2.lean`: new streams come with the strides of the mesh — the API
+cannot change them; for `add_shape_mesh` the mesh it extends is well-formed at that moment, the
+new records have one stride each, the `u16` vertex count does not wrap), the final model is
+well-formed and canonical (`WF a'`, `Canonical a'`: canonical encodings, every mesh starts at its
+first sub-mesh's offset — nothing is asked of the intermediate states), every LOD in use has a mesh
+(`usedNonempty a'`), and the file of the model **as `update_headers` lays it out** (`relayout a'`:
+same geometry — `view_relayout` —, index sections padded to the next multiple of 16 strictly above,
+`Spec/MdlRelayout.lean`) stays below 4 GiB.
+
+Conclusion: `from_existing (encodeMdl a)` returns a model `m0`, and for **every** outcome `mE` of
+the edit calls on `m0` that returns, `write_to_buffer mE` returns a buffer whose re-parse `m1`
+reports exactly `view a'` — new vertices (after canonical encoding), indices, sub-mesh ranges,
+raw streams, shapes, names —, carries `mE`'s `file_header` and `model_data` unchanged, and the
+property's header predicate evaluated on the written file (`headerFlags`: vertex sections sized
+Σ count × stride, index sections 16-byte padded and holding the indices, non-empty sections after
+the runtime block and pairwise disjoint, every section inside the file) is `allOk`.  No bound on
+sizes or history length; nothing about the intermediate states is assumed beyond that the calls
+return.  (The empty history is `c07_write_parse`; there the padding flag need not hold — an unedited
+file keeps whatever index padding it came with.)
+
+`_partial`: (1) a LOD in use without meshes is excluded (`update_headers` gives it a 16-byte index
+section that `Spec.encodeMdl` cannot express); (2) that the edit calls return (no panic of the
+overflow-checked arithmetic in `update_headers`, which depends on the magnitudes of the supplied
+sub-mesh offsets at intermediate states) is a hypothesis here — it is a conclusion in
+`c07_edit_then_parse_total_partial` under explicit size conditions; (3) the classes of the
+recorded findings `c07.writer-unsupported-layout` / `c06.blendweights-byte4` are excluded through
+`Canonical` (`writable` pairs only), exactly as in `c07_write_parse`.  The statement of the former
+comment (`c07_edit_then_parse`) with hypotheses on `a`, `a'` only is **false** for
+`add_shape_mesh` called between the `replace_vertices` calls of one re-layout (the code records
+the mesh's stale start index; witness `corpus/C07/sp-add-shape-noncontiguous.case`, confirmed
+against the real code): `Spec.applyEdit` now rejects such a call as not supplied consistently.
+
+Proof: `Proofs/MdlEditParse.lean` — abstraction relation `Rep` kept by every edit
+(`Proofs/MdlHistory*.lean`), `update_headers` characterised through `HeaderOK` +
+`StartsFromSubmesh` (`Proofs/MdlUpdate.lean`), identification of the in-memory tables with
+`modelData (relayout a')` on the LODs in use (`Proofs/MdlLaidOut.lean`, using
+`calculate_runtime_size` = encoded length, `Proofs/MdlRuntimeSize.lean`), frame lemmas for the
+stale rows of unused LODs and the stale per-part views (`Proofs/MdlFrame.lean`), the flags
+(`Proofs/MdlFlags.lean`), then `c07_write_parse` / `c06_parse_encode_partial`. -/
+theorem c07_edit_then_parse_partial (a : AbstractModel) (h : WF a = true) (hcan : Canonical a = true)
+    (v0 : View) (hv0 : view a = some v0)
+    (es : List AEdit) (hne : es ≠ []) (hes : editsOk2 a es = true)
+    (a' : AbstractModel) (ha' : applyEdits a es = some a')
+    (ces : List Edit) (hces : cedits a es = some ces)
+    (h' : WF a' = true) (hlen' : (encodeMdl (relayout a')).length < 4294967296)
+    (hcan' : Canonical a' = true) (hne' : usedNonempty a' = true)
+    (v : View) (hv : view a' = some v) :
+    ∃ m0, fromExisting (encodeMdl a) = .ok m0 ∧
+      ∀ mE, ces.foldlM Mdl.applyEdit m0 = .ok mE →
+        ∃ buf m1, writeToBuffer mE = .ok buf ∧ fromExisting buf = .ok m1 ∧ m1.view = v ∧
+          m1.fileHeader = mE.fileHeader ∧ m1.modelData = mE.modelData ∧
+          headerFlags m1.fileHeader buf.length m1.lods = HeaderFlags.allOk := by
+  refine ⟨parsedOf a v0, parse_encode a h (canonical_noWeightsByte4 a hcan) v0 hv0, fun mE hE => ?_⟩
+  obtain ⟨buf, m1, h1, h2, h3, h4, h5, h6⟩ :=
+    edit_then_parse a h hcan v0 hv0 es hne hes a' ha' ces hces h' hlen' hcan' hne' v hv mE hE
+  exact ⟨buf, m1, h1, h2, h5, h3, h4, h6⟩
+
+/-- **… and the edit calls do return** when every intermediate state is small enough: `editsFit`
+(`Proofs/MdlReturns.lean`, decidable, stated on the abstract states only) asks of the state after
+every edit `Fits`: table sizes within `u16`, ≤ 3 streams per mesh, unused LODs without meshes,
+every mesh of a LOD in use has a sub-mesh and `2·(first sub-mesh offset + index count) < 2³² − 16`
+(no overflow of the checked `start + count`, `· 2`, no wrap of the padding), and header + runtime
+block + stack + Σ (Σ count × Σ strides + padded index extent) `< 2³²`; and of the state before an
+`add_shape_mesh` that the `u16` shape-mesh count can be incremented.  Then nothing is assumed about
+the outcome of the calls: they return some `mE`, and the conclusion of
+`c07_edit_then_parse_partial` holds for it.  `_partial` for the same reasons (1), (3) as there. -/
+theorem c07_edit_then_parse_total_partial (a : AbstractModel) (h : WF a = true)
+    (hcan : Canonical a = true) (v0 : View) (hv0 : view a = some v0)
+    (es : List AEdit) (hne : es ≠ []) (hes : editsOk2 a es = true) (hfit : editsFit a es = true)
+    (a' : AbstractModel) (ha' : applyEdits a es = some a')
+    (ces : List Edit) (hces : cedits a es = some ces)
+    (h' : WF a' = true) (hlen' : (encodeMdl (relayout a')).length < 4294967296)
+    (hcan' : Canonical a' = true) (hne' : usedNonempty a' = true)
+    (v : View) (hv : view a' = some v) :
+    ∃ m0 mE buf m1, fromExisting (encodeMdl a) = .ok m0 ∧ ces.foldlM Mdl.applyEdit m0 = .ok mE ∧
+      writeToBuffer mE = .ok buf ∧ fromExisting buf = .ok m1 ∧ m1.view = v ∧
+      m1.fileHeader = mE.fileHeader ∧ m1.modelData = mE.modelData ∧
+      headerFlags m1.fileHeader buf.length m1.lods = HeaderFlags.allOk := by
+  obtain ⟨mE, hE⟩ := edits_return_initial a h hcan v0 hv0 es hes hfit a' ha' ces hces
+  obtain ⟨buf, m1, h1, h2, h3, h4, h5, h6⟩ :=
+    edit_then_parse a h hcan v0 hv0 es hne hes a' ha' ces hces h' hlen' hcan' hne' v hv mE hE
+  exact ⟨parsedOf a v0, mE, buf, m1, parse_encode a h (canonical_noWeightsByte4 a hcan) v0 hv0, hE,
+    h1, h2, h5, h3, h4, h6⟩
+
+/-- `canonicalSample` with one (empty) shape, so that `add_shape_mesh` has something to extend -/
+def shapeSample : AbstractModel :=
+  { canonicalSample with shapes := [⟨[0x73], ⟨0, 0, 0⟩, ⟨0, 0, 0⟩⟩] }
+
+/-- a three-edit history on `shapeSample`: `remove_shape_meshes`; the mesh gets 3 new vertices
+(canonical records: Position / Normal Half4 with their 1.0 / 0.0 lanes, BiTangent, Color, 2 slack
+bytes), 6 indices, one sub-mesh `(0, 6)`; then `add_shape_mesh` with one shape value (base index 1)
+and its replacement vertex -/
+def sampleEdits : List AEdit :=
+  let r0 : Bytes := [0x00, 0x3C, 0x00, 0xC0, 0x01, 0x00, 0x00, 0x3C,
+                     0x00, 0x38, 0x00, 0x38, 0x00, 0xB8, 0x00, 0x00]
+  let r1 : Bytes := [1, 128, 254, 255, 10, 20, 30, 40, 0, 0]
+  [.removeShapes,
+   .replace 0 0 3 [⟨16, r0 ++ (r0 ++ r0)⟩, ⟨10, r1 ++ (r1 ++ r1)⟩] [0, 1, 2, 2, 1, 0] [(0, 6)],
+   .addShape 0 0 0 0 [1] [⟨16, r0⟩, ⟨10, r1⟩]]
+
+/-- non-vacuity of `c07_edit_then_parse_partial` / `c07_edit_then_parse_total_partial`: every hypothesis holds on `shapeSample` with
+`sampleEdits`, the concrete calls return, and the final view reports the added shape -/
+example :
+    (match view shapeSample, applyEdits shapeSample sampleEdits, cedits shapeSample sampleEdits with
+     | some v0, some a', some ces =>
+       WF shapeSample && Canonical shapeSample &&
+       editsOk2 shapeSample sampleEdits && editsFit shapeSample sampleEdits && WF a' && Canonical a' &&
+         usedNonempty a' &&
+         decide ((encodeMdl (relayout a')).length < 4294967296) &&
+         (match view a' with
+          | some v => v.lods.all (fun ps => ps.all (fun p => p.shapes.length == 1 && p.vertices.length == 4))
+          | none => false) &&
+         isOk (ces.foldlM Mdl.applyEdit (parsedOf shapeSample v0))
+     | _, _, _ => false) = true := by
+  decide +kernel
+/-- The concrete API calls the check's driver issues for an `edit` / `wbytes` case
+(`Driver/C07.lean`: `concretizeAll`, run with `applyCEdit`) are the calls
+`c07_edit_then_parse_partial` quantifies over (`cedits`, run with `Mdl.applyEdit`), on every history
+the specification gives a meaning. -/
+theorem c07_driver_calls (a a' : AbstractModel) (es : List AEdit) (h : applyEdits a es = some a') :
+    (Driver.C07.concretizeAll a es).map (·.map toEdit) = cedits a es ∧
+    ∀ (cs : List Driver.C07.CEdit) (m : MDL),
+      cs.foldlM Driver.C07.applyCEdit m = (cs.map toEdit).foldlM Mdl.applyEdit m :=
+  ⟨concretizeAll_eq es a a' h, foldlM_applyCEdit⟩
 
 end Physis.C07
